@@ -17,10 +17,11 @@ import (
 )
 
 type c08Case struct {
-	Schema  json.RawMessage `json:"schema"`
-	Configs []string        `json:"indexConfigs"`
-	Rows    kit.Rows        `json:"rows"`
-	Where   string          `json:"where"`
+	Schema  json.RawMessage    `json:"schema"`
+	Configs []string           `json:"indexConfigs"`
+	Rows    kit.Rows           `json:"rows"`
+	Earlier map[string]kit.Row `json:"createdAsThenUpdated,omitempty"`
+	Where   string             `json:"where"`
 }
 
 // c08Table: s0 is unique by construction so that every schema index containing it is valid.
@@ -105,6 +106,24 @@ func TestC08(t *testing.T) {
 			}
 			rows[kit.MkUUID(i+1)] = r
 		}
+		// some rows reach their contents in two steps: created with other values in one to
+		// three columns (s0, when it changes, had a value nobody else has), then updated
+		earlier := map[string]kit.Row{}
+		for _, u := range kit.SortedUUIDs(rows) {
+			if rapid.IntRange(0, 3).Draw(t, "twostep") != 0 {
+				continue
+			}
+			e := rows[u].Clone()
+			for i, n := 0, rapid.IntRange(1, 3).Draw(t, "earliercols"); i < n; i++ {
+				c := tb.Cols[rapid.IntRange(0, len(tb.Cols)-1).Draw(t, "earliercol")]
+				if c.Name == "s0" {
+					e[c.Name] = kit.Scalar(kit.Str("old-" + u[len(u)-3:]))
+				} else {
+					e[c.Name] = kit.GenVal(t, c, pool)
+				}
+			}
+			earlier[u] = e
+		}
 		base := kit.Schema{Name: "DB", Version: "1.0.0", Tables: []kit.Table{tb}}
 		g := kit.NewTxnGen(base, kit.TxnCfg{MayReject: rapid.IntRange(0, 4).Draw(t, "mayreject") == 0})
 		// a sequence of queries evaluated one after the other on the same caches and
@@ -159,7 +178,7 @@ func TestC08(t *testing.T) {
 			queries = append(queries, q)
 			texts = append(texts, q.text)
 		}
-		kase := c08Case{Rows: rows, Where: strings.Join(texts, " ; ")}
+		kase := c08Case{Rows: rows, Earlier: earlier, Where: strings.Join(texts, " ; ")}
 		for _, c := range configs {
 			kase.Configs = append(kase.Configs, c.name)
 		}
@@ -192,8 +211,21 @@ func TestC08(t *testing.T) {
 			rc := tc.Table(tb.Name)
 			order := rapid.Permutation(kit.SortedUUIDs(rows)).Draw(t, "createorder")
 			for _, u := range order {
-				if err := rc.Create(u, w.ModelFromRow(tb.Name, u, rows[u]), true); err != nil {
+				first := rows[u]
+				if e, ok := earlier[u]; ok {
+					first = e
+				}
+				if err := rc.Create(u, w.ModelFromRow(tb.Name, u, first), true); err != nil {
 					kit.Fail(t, "C08", "cache.apply-error", kase, "config %s: Create(%s): %v", cfg.name, u, err)
+				}
+			}
+			updOrder := rapid.Permutation(kit.SortedUUIDs(rows)).Draw(t, "updateorder")
+			for _, u := range updOrder {
+				if _, ok := earlier[u]; !ok {
+					continue
+				}
+				if _, err := rc.Update(u, w.ModelFromRow(tb.Name, u, rows[u]), true); err != nil {
+					kit.Fail(t, "C08", "cache.apply-error", kase, "config %s: Update(%s) from %s: %v", cfg.name, u, earlier[u].Key(), err)
 				}
 			}
 			// the same through the database layer: List with conditions and a select operation
@@ -203,12 +235,25 @@ func TestC08(t *testing.T) {
 			}
 			var load []ovsdb.Operation
 			for _, u := range order {
-				ops, _ := kit.DecodeOps(s, []kit.Op{{Op: "insert", Table: tb.Name, UUID: u, Row: rows[u]}})
+				first := rows[u]
+				if e, ok := earlier[u]; ok {
+					first = e
+				}
+				ops, _ := kit.DecodeOps(s, []kit.Op{{Op: "insert", Table: tb.Name, UUID: u, Row: first}})
 				load = append(load, ops...)
 			}
 			if len(load) > 0 {
 				if out := db.Transact(load); !out.Committed {
 					kit.Fail(t, "C08", "harness.load", kase, "config %s: loading the rows failed: %s %v", cfg.name, kit.ResultsJSON(out.Results), out.CommitErr)
+				}
+			}
+			for _, u := range updOrder {
+				if _, ok := earlier[u]; !ok {
+					continue
+				}
+				ops, _ := kit.DecodeOps(s, []kit.Op{{Op: "update", Table: tb.Name, Where: []kit.Cond{{Col: "_uuid", Fn: "==", Val: kit.Scalar(kit.UUID(u))}}, Row: rows[u]}})
+				if out := db.Transact(ops); !out.Committed {
+					kit.Fail(t, "C08", "harness.load", kase, "config %s: updating row %s to its final contents failed: %s %v", cfg.name, u, kit.ResultsJSON(out.Results), out.CommitErr)
 				}
 			}
 			for qi, q := range queries {
